@@ -5,7 +5,7 @@
    Tied to the code by text equality with the statements recorded from the real router (checks/c13.py).
    Executable definitions only. *)
 From Coq Require Import List ZArith NArith String Ascii Bool.
-From Qryn Require Import lib.Strs lib.CivilDate model.Sql model.SqlRender model.Logql model.LogqlPlan.
+From Qryn Require Import lib.Strs lib.CivilDate model.Sql model.SqlRender model.Logql model.LogqlPlan model.PromSel.
 Import ListNotations.
 Open Scope string_scope.
 
@@ -74,3 +74,22 @@ Definition lv_mismatch (x : lv_case) : bool :=
   | None => true
   end.
 Definition lv_mismatches (cs : list lv_case) : list Z := map lv_id (filter lv_mismatch cs).
+
+(* ---------- Prometheus Select and label fetch: text of C17's model (PromSel.select_sql = what CLokiQuerier.Select sends,
+   PromSel.labels_fetch = labelsGetter.getFetchRequest) vs the statements recorded from /api/v1/query(_range) in C13's own
+   run.  The hint record of a Select call is rebuilt from the request (step, function, range: per endpoint) and the two
+   timestamp literals of the recorded statement; every other byte - tables, matchers, exclusion sub-queries, type and date
+   conjuncts, bucket expressions - comes from the model.  No matcher of the sweep accepts the empty string through a
+   regular expression, so the oracle answers false. ---------- *)
+Record ps_case := { ps_id : Z; ps_cluster : bool; ps_db : string; ps_h : PromSel.hints; ps_ms : list matcher; ps_sql : string }.
+Definition ps_mismatches (cs : list ps_case) : list Z :=
+  flat_map (fun c => match PromSel.select_sql (fun _ _ => false) (ps_cluster c) (ps_db c) (ps_h c) (ps_ms c) with
+                     | Some t => if String.eqb t (ps_sql c) then [] else [ps_id c]
+                     | None => [ps_id c] end) cs.
+Definition ps_texts (cs : list ps_case) : list (option string) :=
+  map (fun c => PromSel.select_sql (fun _ _ => false) (ps_cluster c) (ps_db c) (ps_h c) (ps_ms c)) cs.
+Record pf_case := { pf_id : Z; pf_cluster : bool; pf_fps : list N; pf_from_ms : Z; pf_to_ms : Z; pf_sql : string }.
+Definition pf_mismatches (cs : list pf_case) : list Z :=
+  flat_map (fun c => match render (PromSel.labels_fetch (pf_cluster c) (pf_fps c) (pf_from_ms c) (pf_to_ms c)) false with
+                     | Some t => if String.eqb t (pf_sql c) then [] else [pf_id c]
+                     | None => [pf_id c] end) cs.
